@@ -210,6 +210,16 @@ def native_end_to_end(tier):
                         cid_kind, combo, code, exp), args=dict(cid=cid_kind, files=list(combo))))
                 elif len(samples) < 2:
                     samples.append(dict(query="native/e2e", cid=cid_kind, files=list(combo), exit_code=code))
+        # an unreadable file stays exit code 3 whatever the end-of-data checks of the CID would say about no data
+        strict_cid = os.path.join(d, "strict_cid.csv")
+        open(strict_cid, "w").write("d,format,delimited\nf,k,,,1\nc,some,DistinctCount,k >= 1\n")
+        for combo, exp in ((("missing",), (3,)), (("accepted", "missing"), (3,)), (("accepted",), (0,))):
+            n += 1
+            with contextlib.redirect_stderr(io.StringIO()):
+                code = applications.main(["cutplace", "--log", "critical", strict_cid] + [paths[x] for x in combo])
+            if code not in exp:
+                failures.append(dict(key="exit-code-e2e", what="CID with 'DistinctCount k >= 1', files %r -> exit code %r, "
+                                     "expected one of %r" % (combo, code, exp), args=dict(files=list(combo))))
         # --until: same effect as the API's limit
         lim = os.path.join(d, "limit.csv")
         open(lim, "w").write("a\nb\ntoolong\nc\n")
